@@ -36,6 +36,14 @@ struct C03 : Harness {
                     e.set("s", 0).set("in", *gbytes(bs));
                     if (*chance(25)) e.set("ov", *irange(-(bs - 1), bs - 1)); else e.set("io", *goffset()).set("oo", *goffset());
                     p.push_back(e);
+                    // tweak changes between the blocks: the inverse of an earlier block is also applied *later*, after
+                    // the same tweak has been set again (see the "late inverse" in run())
+                    if ((kind == T128 || kind == T64 || kind == MK) && *chance(50)) {
+                        int tl = kind == MK ? 8 : *irange(1, bs);
+                        Op t = mkop(opn(kind, "set_tweak")); t.set("s", 0);
+                        if (*chance(15)) t.setnull("tweak"); else t.set("tweak", *gbytes(tl));
+                        t.set("len", tl); p.push_back(t);
+                    }
                 }
             } else if (mode == 1) {     // (b) parallel round trips on every back end
                 int kind = *rc::gen::element((int)P128, (int)P64, (int)PM);
@@ -114,6 +122,52 @@ struct C03 : Harness {
             if (t2[(size_t)qi[i]].out != orig)
                 return "op #" + std::to_string(i) + " [" + ser(p[i]).substr(0, 160) + "]: the inverse operation does not restore the original block(s): got " +
                        hex(t2[(size_t)qi[i]].out).substr(0, 64) + " want " + hex(orig).substr(0, 64);
+        }
+        // late inverse (caller-owned tweakable schedules): the whole history runs first, then for every earlier block the
+        // tweak that was active at that point is set again and the inverse is applied - "under one key and tweak" must
+        // not depend on which other tweaks the schedule has been through in between
+        if (kind == T128 || kind == T64 || kind == MK) {
+            Model m; Program q2 = p; std::vector<std::pair<size_t, size_t>> late;   // (index in p, index of inverse in q2)
+            size_t last_key = 0;
+            for (size_t i = 0; i < p.size(); ++i) { std::string fn = p[i].name.substr(p[i].name.find('.') + 1); if (fn == "set_key" || fn == "set_tweaked_key") last_key = i; }
+            for (size_t i = 0; i < p.size(); ++i) {
+                m.step1(p[i]);
+                if (!is_data(p[i]) || i < last_key || p[i].name == "mk.crypt_tw" || m.objs.empty() || !m.objs[0].keyed) continue;
+                const Model::Obj &o = m.objs[0];
+                Op st = mkop(opn(kind, "set_tweak")); st.set("s", 0).set("tweak", o.tweak).set("len", (long long)o.tweak.size());
+                q2.push_back(st);
+                std::string fn = p[i].name.substr(p[i].name.find('.') + 1);
+                Op inv = p[i]; inv.kv.clear(); inv.set("s", 0).set("in", t[i].out);
+                if (kind == MK) {
+                    // the mode may have been switched since: bring it to the opposite of the mode at op i with swap_modes
+                    bool dec_then = o.dec;
+                    q2.push_back(mkop("mk.setmode").set("s", 0).set("dec", dec_then ? 0 : 1));
+                    inv.name = "mk.crypt";
+                } else inv.name = opn(kind, fn == "enc" ? "dec" : "enc");
+                late.emplace_back(i, q2.size());
+                q2.push_back(inv);
+            }
+            if (!late.empty()) {
+                // resolve the pseudo-op mk.setmode into swap_modes calls using the model's view of the mode
+                Program q3; Model m3; std::vector<size_t> map3(q2.size(), 0);
+                for (size_t i = 0; i < q2.size(); ++i) {
+                    if (q2[i].name == "mk.setmode") {
+                        bool want = q2[i].geti("dec") != 0;
+                        if (!m3.objs.empty() && m3.objs[0].dec != want) { Op sw = mkop("mk.swap"); sw.set("s", 0); m3.step1(sw); q3.push_back(sw); }
+                        map3[i] = q3.size();
+                        continue;
+                    }
+                    m3.step1(q2[i]); map3[i] = q3.size(); q3.push_back(q2[i]);
+                }
+                Exec ex4(api);
+                Transcript t4 = ex4.run(q3);
+                for (auto &pr : late) {
+                    const Bytes &orig = *p[pr.first].getb("in");
+                    if (t4[map3[pr.second]].out != orig)
+                        return "op #" + std::to_string(pr.first) + " [" + ser(p[pr.first]).substr(0, 160) + "]: after further tweak changes and setting the same tweak again, the inverse "
+                               "operation no longer restores the block: got " + hex(t4[map3[pr.second]].out) + " want " + hex(orig);
+                }
+            }
         }
         // Mantis mode machine: model + image of a freshly keyed schedule
         bool swap_after_tweak = false, crypt_after = false;
